@@ -358,6 +358,24 @@ func (b *Builder) Add(x, y *Term) *Term {
 	if isZero(y) {
 		return x
 	}
+	// (p + q) + p*(-1)  =  q   (a point moved by a vector, minus the point)
+	if x.Op == "+" && len(x.Args) == 2 && y.Op == "*" && len(y.Args) == 2 && x.Sort == "Real" {
+		isMinusOne := func(t *Term) bool { return t.RatV != nil && t.RatV.Cmp(big.NewRat(-1, 1)) == 0 }
+		var neg *Term
+		if isMinusOne(y.Args[1]) {
+			neg = y.Args[0]
+		} else if isMinusOne(y.Args[0]) {
+			neg = y.Args[1]
+		}
+		if neg != nil {
+			if x.Args[0] == neg {
+				return x.Args[1]
+			}
+			if x.Args[1] == neg {
+				return x.Args[0]
+			}
+		}
+	}
 	// (a + c1) + c2
 	if y.IntV != nil && x.Op == "+" && len(x.Args) == 2 && x.Args[1].IntV != nil {
 		return b.Add(x.Args[0], b.IntBig(new(big.Int).Add(x.Args[1].IntV, y.IntV)))
